@@ -92,12 +92,15 @@ def gfOp (f : List String) : Option String :=
     let fld := newField (← pp.toNat?) (← size.toNat?) (← base.toNat?)
     let p := newPoly (← nats p)
     let q := newPoly (← nats q)
+    -- `Degree`, `Zero`, `GetCoefficient(0)`, `GetCoefficient(Degree())` of the result
+    let acc := fun (r : Poly) =>
+      s!" deg={degree r} zero={if isZero r then 1 else 0} lo={coeff r 0} hi={coeff r (degree r).toNat}"
     match op with
-    | "add" => pure ("ok r=" ++ joinNats (polyAdd p q))
-    | "mul" => pure ("ok r=" ++ joinNats (polyMul fld p q))
+    | "add" => let r := polyAdd p q; pure ("ok r=" ++ joinNats r ++ acc r)
+    | "mul" => let r := polyMul fld p q; pure ("ok r=" ++ joinNats r ++ acc r)
     | "div" =>
       let (quo, rem) := polyDiv fld p q
-      pure s!"ok q={joinNats quo} r={joinNats rem}"
+      pure (s!"ok q={joinNats quo} r={joinNats rem}" ++ acc rem)
     | _ => none
   | ["rs", pp, size, base, calls] => do
     let fld := newField (← pp.toNat?) (← size.toNat?) (← base.toNat?)
